@@ -41,6 +41,32 @@ var errType = types.Universe.Lookup("error").Type()
 // result is a bool verdict and whose last result is an error.
 func classifierFamily(p *Prog) []*ssa.Function {
 	var out []*ssa.Function
+	reach := map[*ssa.Function]bool{}
+	var walk func(f *ssa.Function)
+	walk = func(f *ssa.Function) {
+		if f == nil || reach[f] || f.Blocks == nil {
+			return
+		}
+		reach[f] = true
+		eachCall(f, func(c ssa.CallInstruction) {
+			if callee := c.Common().StaticCallee(); callee != nil && pkgOfFn(callee) == pkgOfFn(f) {
+				walk(callee)
+			}
+		})
+		// (calls through tables of parser functions, method values ...: the call graph's edges
+		// within the package)
+		if n := p.CG.Nodes[f]; n != nil {
+			for _, e := range n.Out {
+				if g := e.Callee.Func; g != nil && pkgOfFn(g) == pkgOfFn(f) {
+					walk(g)
+				}
+			}
+		}
+		for _, a := range f.AnonFuncs {
+			walk(a)
+		}
+	}
+	walk(p.Func("parser", "IsQueryIdempotent"))
 	for _, fn := range p.ScopedFuncs("parser") {
 		if fn.Parent() != nil {
 			continue
@@ -53,8 +79,9 @@ func classifierFamily(p *Prog) []*ssa.Function {
 		if !ok || b.Kind() != types.Bool || !types.Identical(res.At(res.Len()-1).Type(), errType) {
 			continue
 		}
-		// part of the idempotency walk (not the handled-query parser)
-		if strings.Contains(fn.Name(), "Handled") || fn.Name() == "IsQueryHandled" {
+		// part of the idempotency walk (not the handled-query parser): reachable from the classifier's
+		// entry point
+		if !reach[fn] {
 			continue
 		}
 		out = append(out, fn)
@@ -765,7 +792,7 @@ func c06Lwt(p *Prog, r *Report, fam map[*ssa.Function]bool) {
 			if c, ok := ret.Results[0].(*ssa.Const); ok && c.Value != nil && constant.BoolVal(c.Value) {
 				scanned := false
 				for _, ct := range dominatingConds(ret.Block()) {
-					if cc, ok := ct.Cond.(*ssa.Call); ok && callIsFunc(cc, "parser", "isDMLTerminator") && ct.Truth {
+					if cc, ok := ct.Cond.(*ssa.Call); ok && cc.Call.StaticCallee() != nil && cc.Call.StaticCallee() == p.FuncOpt("parser", "isDMLTerminator") && ct.Truth {
 						scanned = true
 					}
 				}
@@ -1022,7 +1049,7 @@ func c06LexerRewind(p *Prog, r *Report) {
 
 // isGeneratedLexer: the ragel-generated scanner function (trusted generated component).
 func isGeneratedLexer(fn *ssa.Function) bool {
-	return fn.Name() == "next" && recvNamed(fn) != nil && recvNamed(fn).Obj().Name() == "lexer"
+	return fn.Name() == "next" && recvNamed(fn) != nil && canonTypeName(recvNamed(fn)) == "lexer"
 }
 
 // boundedRecursion: the hand-written parser is recursive descent; its recursion depth is driven
